@@ -37,7 +37,7 @@ structure CSOPoint2 (K : Type) where
 /-- `DEFAULT_EPSILON` (f64) -/
 @[inline] def epsDefault : K := lit 1 4503599627370496
 /-- `gjk::eps_tol()` = `DEFAULT_EPSILON * 10.0` -/
-@[inline] def gjkEpsTol : K := epsDefault * lit 10
+@[inline] def epaGjkEpsTol : K := epsDefault * lit 10
 /-- `_eps_tol` of `EPA::closest_points` = `DEFAULT_EPSILON * 100.0` -/
 @[inline] def epaEpsTol : K := epsDefault * lit 100
 
@@ -58,7 +58,7 @@ def epaProjectOrigin2 (a b : V2 K) : Option (V2 K × K × K) :=
   let abAp := ab.dot ap
   let sqnab := ab.normSq
   if neq sqnab 0 then none else
-  if abAp < -gjkEpsTol || sqnab + gjkEpsTol < abAp then none else
+  if abAp < -epaGjkEpsTol || sqnab + epaGjkEpsTol < abAp then none else
   let pos := abAp / sqnab
   let res := a.add (ab.smul pos)
   some (res, 1 - pos, pos)
@@ -70,7 +70,7 @@ structure FaceId2 (K : Type) where
 
 /-- `FaceId::new(id, neg_dist)` -/
 def FaceId2.new? (id : Nat) (negDist : K) : Option (FaceId2 K) :=
-  if gjkEpsTol < negDist then none else some ⟨id, negDist⟩
+  if epaGjkEpsTol < negDist then none else some ⟨id, negDist⟩
 
 /-- `a <= b` through `PartialOrd::partial_cmp = Some(Ord::cmp)`: `cmp` is `Less` / `Greater` / else `Equal` -/
 def FaceId2.le (a b : FaceId2 K) : Bool :=
